@@ -28,6 +28,8 @@ structure Flags where
 structure SynErr where
   pos : Nat
   msg : String
+  /-- the error class: `UnexpectedEOF` (true) or `UnexpectedToken` (false) -/
+  eof : Bool := false
   deriving Repr, DecidableEq, Inhabited
 
 /-- parser state: the tokens not yet consumed (`_lexer` + `_buffer`) and `_last` -/
@@ -50,9 +52,26 @@ instance : Monad P where
   bind := P.bind
 end P
 
-/-- `raise _unexpected_token(...)` / `UnexpectedToken` / `UnexpectedEOF` -/
+/-- `raise _unexpected_token(tok, tok.start, …)` for the NEXT token `tok = self.peek()`:
+    `UnexpectedEOF` if it is `<EOF>`, else `UnexpectedToken`, at its start -/
 def fail (msg : String) : P α := fun s =>
-  .error { pos := match s.toks with | t :: _ => t.start | [] => s.last.stop, msg := msg }
+  match s.toks with
+  | t :: _ => .error { pos := t.start, msg := msg, eof := t.kind = .eof }
+  | [] => .error { pos := s.last.stop, msg := msg, eof := true }
+
+/-- `raise UnexpectedToken(…, next_token.start, …)` (`expect`, `expect_keyword`): never `UnexpectedEOF` -/
+def failTok (msg : String) : P α := fun s =>
+  match s.toks with
+  | t :: _ => .error { pos := t.start, msg := msg, eof := false }
+  | [] => .error { pos := s.last.stop, msg := msg, eof := true }
+
+/-- `raise _unexpected_token(t, t.start, …)` for an already inspected / consumed token `t` -/
+def failAt (t : Tok) (msg : String) : P α := fun _ =>
+  .error { pos := t.start, msg := msg, eof := t.kind = .eof }
+
+/-- `raise UnexpectedToken(…, t.start, …)` for an already inspected / consumed token `t` -/
+def failTokAt (t : Tok) (msg : String) : P α := fun _ =>
+  .error { pos := t.start, msg := msg, eof := false }
 
 /-! ### keywords (code points) -/
 namespace K
@@ -82,29 +101,29 @@ end K
 def peek : P Tok := fun s =>
   match s.toks with
   | t :: _ => .ok (t, s)
-  | [] => .error { pos := s.last.stop, msg := "Unexpected <EOF>" }
+  | [] => .error { pos := s.last.stop, msg := "Unexpected <EOF>", eof := true }
 
 /-- `self.peek(2)` -/
 def peek2 : P Tok := fun s =>
   match s.toks with
   | _ :: t :: _ => .ok (t, s)
-  | _ => .error { pos := s.last.stop, msg := "Unexpected <EOF>" }
+  | _ => .error { pos := s.last.stop, msg := "Unexpected <EOF>", eof := true }
 
 /-- `self.advance()`: sets `_last` -/
 def advance : P Tok := fun s =>
   match s.toks with
   | t :: ts => .ok (t, { toks := ts, last := t })
-  | [] => .error { pos := s.last.stop, msg := "Unexpected <EOF>" }
+  | [] => .error { pos := s.last.stop, msg := "Unexpected <EOF>", eof := true }
 
 /-- `self.expect(kind)` -/
 def expect (k : TokKind) : P Tok := do
   let t ← peek
-  if t.kind = k then advance else fail "Expected other token kind"
+  if t.kind = k then advance else failTok "Expected other token kind"
 
 /-- `self.expect_keyword(keyword)` -/
 def expectKeyword (kw : Text) : P Tok := do
   let t ← peek
-  if t.kind = .name ∧ t.value = kw then advance else fail "Expected keyword"
+  if t.kind = .name ∧ t.value = kw then advance else failTok "Expected keyword"
 
 /-- `self.skip(kind)` -/
 def skip (k : TokKind) : P Bool := do
